@@ -2179,6 +2179,10 @@ class Symex:
                 if any(_has_sym(a) or isinstance(a, Obj) for a in list(args) + list(kw.values())):
                     # a builtin applied to a symbolic value stays an uninterpreted call
                     return self.opaque_call(name, args, kw)
+                if name in ("range", "int", "float", "len", "abs", "round") and args and \
+                        all(hasattr(a, "sx_getattr") or _plain(a) for a in args):
+                    # concrete values of a rule-side domain: the TypeError is the behaviour (range(1/2), int(None))
+                    raise Raised("TypeError", str(e), node)
                 self.unsupported(node, f"builtin {name}: {e}")
             except ValueError:
                 raise Raised("ValueError", None, node)
